@@ -154,6 +154,11 @@ func RunB(sc *Scenario, site *Site, o BOpts) *Result {
 	t0 := time.Now()
 	err := cmd.Run()
 	res.WallNS = int64(time.Since(t0))
+	if ps := cmd.ProcessState; ps != nil {
+		// processor time of git-sizer and the git processes it waited for:
+		// unlike wall time it does not grow with the load of the machine
+		res.CPUNS = int64(ps.UserTime() + ps.SystemTime())
+	}
 	res.Stdout, res.Stderr = so.Bytes(), se.Bytes()
 	if ctx.Err() != nil {
 		res.Hang = true
